@@ -279,3 +279,31 @@ def python_bool_on_arrays(prog: Program, m: ModuleInfo, fn: ast.FunctionDef) -> 
                 hits.append(f"line {n.lineno}: Python `{word}` over the array value {a}")
                 break
     return hits
+
+
+def mutable_default_mutation(fn: ast.FunctionDef) -> list[str]:
+    """A parameter whose default is a mutable literal ([] / {} / set() / dict() / list()) and that the body mutates: the default
+    object is shared by every call that omits the argument, so state leaks from one call (one environment, one run) to the next."""
+    hits = []
+    a = fn.args
+    pos = a.posonlyargs + a.args
+    pairs = list(zip(pos[len(pos) - len(a.defaults):], a.defaults)) + [(p_, d) for p_, d in zip(a.kwonlyargs, a.kw_defaults) if d is not None]
+    mut = set()
+    for p_, d in pairs:
+        if isinstance(d, (ast.List, ast.Dict, ast.Set)) or (isinstance(d, ast.Call) and ast.unparse(d.func).split(".")[-1] in ("dict", "list", "set", "OrderedDict", "defaultdict")):
+            mut.add(p_.arg)
+    if not mut:
+        return hits
+    MUTATORS = ("append", "add", "update", "extend", "pop", "setdefault", "clear", "insert", "remove", "popitem", "discard", "sort", "reverse")
+    for n in ast.walk(fn):
+        if isinstance(n, ast.Call) and isinstance(n.func, ast.Attribute) and isinstance(n.func.value, ast.Name) and n.func.value.id in mut and n.func.attr in MUTATORS:
+            hits.append(f"line {n.lineno}: default argument `{n.func.value.id}` is mutated ({n.func.attr})")
+        if isinstance(n, ast.Subscript) and not isinstance(n.ctx, ast.Load) and isinstance(n.value, ast.Name) and n.value.id in mut:
+            hits.append(f"line {n.lineno}: default argument `{n.value.id}` is written by item assignment")
+        if isinstance(n, ast.AugAssign) and isinstance(n.target, ast.Name) and n.target.id in mut:
+            hits.append(f"line {n.lineno}: default argument `{n.target.id}` is updated in place")
+        if isinstance(n, ast.Assign) and isinstance(n.value, ast.Name) and n.value.id in mut:
+            for t in n.targets:
+                if isinstance(t, ast.Attribute) and isinstance(t.value, ast.Name) and t.value.id == "self":
+                    hits.append(f"line {n.lineno}: the shared default object `{n.value.id}` is stored on self.{t.attr} (every instance built without the argument shares it)")
+    return hits
